@@ -33,6 +33,7 @@ def run(tier, seed):
                 "are snapshotted (64-bit hash of every array and scalar) before and after. Low-level functions on generated small key sets (n 1..12, k in {1,2}, five gadget layouts): four bootstrap variants (incl. result == input), "
                 "lweKeySwitch, extraction, tGswExternProduct / tGswTLweDecompH / tGswTorus32PolynomialDecompH (const inputs temporarily offset) with random and extreme contents, tGswExternMulToTLwe, tGswFFTExternMulToTLwe, "
                 "blind rotation (+extract): inputs, test polynomial, exponent array, bk and bkFFT unchanged. RNG (metamorphic, API only): seed(s); f(...); Enc(m) gives the same bytes as seed(s); Enc(m). "
+                "A share of the gate and bootstrap inputs is moved onto exact rounding ties of the 2N modulus switch (mask coefficients of the bootstrapped combination congruent to 2^20 mod 2^21, body compensated with the key bit so that phase and noise stay valid). "
                 "E1 rapidcheck over all of it plus a deterministic gate x pattern table. Non-trivial = aliased gate call, or a function that decomposes / bootstraps; distinct by case hash.")
     res.assumptions = ["FFT key snapshot reads N doubles behind LagrangeHalfCPolynomial::data (layout shared by all five back-ends)"]
     return core.finish(res)
